@@ -269,6 +269,8 @@ def check_case(case, ctx):
             classes.append("gas_fixed_" + s["gas"]["fixed"])
         if isinstance(s.get("pp"), dict) and any(p["alt"] for p in s["pp"]["phases"]):
             classes.append("pp_alt_formula")
+        if s.get("o2_pp_and_gas_resolved"):
+            classes.append("excluded_trigger:o2_as_pure_phase_and_in_gas_phase")
         if isinstance(s.get("exch"), dict):
             classes.append("exch_equilibrate" if s["exch"]["equil"] is not None else "exch_explicit")
             if s["exch"]["equil"] is None and any(nm == "HX" for nm, _ in s["exch"]["species"]):
